@@ -224,9 +224,14 @@ def finish(prop, tier, seed, level, records, stats, summary, t0, assumptions=Non
                 inconclusive = "evidence file does not validate against the schema (framework bug): " + e.message[:200]
     except ImportError:
         pass
+    seen_keys = set()
     for k, e in known_hits.items():
         f_ = e["finding"]
+        seen_keys.add(id(f_))
         print(f"KNOWN-FINDING: property={prop} {f_['key']} — {f_.get('what','')} (seen {e['n']}x this run)")
+    for f_ in known:
+        if f_.get("status") == "open" and f_.get("property") == prop and id(f_) not in seen_keys:
+            print(f"KNOWN-FINDING: property={prop} {f_['key']} — {f_.get('what','')} (listed; not reproduced by this run's workload)")
     print(f"[{prop} {tier} seed={seed}] cases={len(records)}/{stats['n_cases']} nontrivial={cov['distinct_nontrivial']} "
           f"violations(new)={len(new_viol)} known={sum(e['n'] for e in known_hits.values())} wall={ev['wall_s']}s")
     if new_viol:
